@@ -113,7 +113,55 @@ class Add(Contract):
     canaries = [("other._number <= self._maxAdd", "other._number <= self._halfRing", "ArithmeticError-exactly-when")]
 
 
+class WideWidths(Bounded):
+    prop = "C34"
+    title = "SerialNumber at wide widths: boundary values of comparison and addition against RFC 1982 3.2 in exact integers"
+    scope = ("widths {8, 16, 31, 32, 33, 52..57, 63, 64, 65, 96, 128}; a, b, n from {0, 1, 2, H-2, H-1, H, H+1, 2H-2, 2H-1} "
+             "(H = half ring) plus seeded random values; every pair: exhaustive over the boundary set")
+    functions = ["SerialNumber.__init__", "SerialNumber.__lt__", "SerialNumber.__gt__", "SerialNumber.__le__",
+                 "SerialNumber.__ge__", "SerialNumber.__eq__", "SerialNumber.__add__"]
+
+    def cases(self, tier, rng):
+        for bits in (8, 16, 31, 32, 33, 52, 53, 54, 55, 56, 57, 63, 64, 65, 96, 128):
+            H = 2 ** (bits - 1)
+            vals = sorted({v % (2 * H) for v in (0, 1, 2, H - 2, H - 1, H, H + 1, 2 * H - 2, 2 * H - 1)})
+            vals += [rng.randrange(2 * H) for _ in range(3 if tier == "quick" else 12)]
+            for a in vals:
+                for b in vals:
+                    yield (bits, a, b)
+
+    def check(self, case):
+        bits, a, b = case
+        H = 2 ** (bits - 1)
+        A, B = SerialNumber(a, bits), SerialNumber(b, bits)
+        if (A._modulo, A._halfRing, A._maxAdd, A._number) != (2 * H, H, H - 1, a):
+            return "SerialNumber(%d, %d): modulo/halfRing/maxAdd/number = %r" % (a, bits, (A._modulo, A._halfRing, A._maxAdd, A._number))
+        lt = (a < b and b - a < H) or (a > b and a - b > H)
+        gt = (a < b and b - a > H) or (a > b and a - b < H)
+        got = (A < B, A > B, A == B, A <= B, A >= B)
+        want = (lt, gt, a == b, lt or a == b, gt or a == b)
+        if got != want:
+            return "bits %d: %d ? %d: (lt, gt, eq, le, ge) = %r, RFC 1982 says %r" % (bits, a, b, got, want)
+        # addition of n = b
+        try:
+            r = A + B
+        except ArithmeticError:
+            r = None
+        if b > H - 1:
+            if r is not None:
+                return "bits %d: %d + %d accepted (maximum increment is %d)" % (bits, a, b, H - 1)
+            return None
+        if r is None:
+            return "bits %d: %d + %d refused (allowed up to %d)" % (bits, a, b, H - 1)
+        if r._number != (a + b) % (2 * H) or r._serialBits != bits:
+            return "bits %d: %d + %d = %r" % (bits, a, b, r._number)
+        if (r > A) != (b > 0) or (r == A) != (b == 0):
+            return "bits %d: s + %d compares (gt %r, eq %r) with s = %d" % (bits, b, r > A, r == A, a)
+        return None
+
+
 CONTRACTS = [Init, Compare, Add]
+BOUNDED = [WideWidths]
 NOTES = dict(
     explanation="SerialNumber methods proved equal to the RFC 1982 3.2 definitions for symbolic width and values.",
     not_covered=["fromRFC4034DateString/toRFC4034DateString (datetime library)"],
@@ -124,7 +172,8 @@ MANIFEST = dict(
     category="proof",
     text="Every comparison method and __add__/__init__ of the real SerialNumber class is symbolically executed from "
          "/repo's source and proved equal to the RFC 1982 3.2 definitions for a symbolic width (bits >= 1) and all "
-         "values; the same contracts are also run exhaustively on the real class for widths 1..4.",
+         "values; the same contracts are also run exhaustively on the real class for widths 1..4, and the boundary values of "
+         "wide widths (up to 128 bits, around 2**53 in particular) are compared with exact integer arithmetic (bounded).",
     note="Trusted: the pyvc VC generator, the SMT solvers, the pow2 axioms (2**k = 2*2**(k-1)); Python ints are "
          "mathematical integers (exact). The RFC 4034 date helpers are not covered.",
     technique="contract-based deductive verification: AST symbolic execution to SMT VCs (z3/cvc5), spec functions from RFC 1982",
